@@ -92,6 +92,12 @@ pub fn gen_batch_case(check: &str, seed: u64, family: &str, tier: Tier, with_fil
         w.out = Some(gen_out_file(&mut r, &w));
     }
     w.policies_at_run_level = r.chance(0.2);
+    // small and large responses: the route (and sometimes the whole search tree) in every output format
+    if r.chance(0.5) {
+        let route = r.pick(&["edge_id", "json", "wkt", "geo_json", "wkb"]).to_string();
+        let tree = if r.chance(0.3) { Some(r.pick(&["edge_id", "json", "wkt", "geo_json"]).to_string()) } else { None };
+        w.traversal_plugin = Some((route, tree));
+    }
     if check == "C19" && w.out.is_some() && r.chance(0.2) {
         // a combined policy: every response goes to two files (any mix of formats)
         let mut o2 = gen_out_file(&mut r, &w);
